@@ -124,6 +124,8 @@ pub struct Conn {
 pub struct ListenerState {
     queue: VecDeque<usize>,
     waker: Option<Waker>,
+    /// fault: errors the next accept() calls return (one each), e.g. ECONNABORTED, EMFILE
+    accept_errors: VecDeque<io::ErrorKind>,
 }
 
 #[derive(Clone, Debug)]
@@ -208,6 +210,20 @@ pub fn stub_accept(addr: SocketAddr) -> Option<PeerEnd> {
             closed: false,
         })
     })
+}
+
+/// fault: the listener's next accept() fails with `kind` (the listener itself stays usable, as a socket's would)
+pub fn inject_accept_error(addr: SocketAddr, kind: io::ErrorKind) {
+    let wk = with(|w| match w.net.listeners.get_mut(&addr) {
+        Some(l) => {
+            l.accept_errors.push_back(kind);
+            l.waker.take()
+        }
+        None => None,
+    });
+    if let Some(wk) = wk {
+        wk.wake();
+    }
 }
 
 pub fn plan_connect(addr: SocketAddr, outcome: ConnectOutcome) {
@@ -533,6 +549,11 @@ impl TcpListener {
                 Some(l) => l,
                 None => return Poll::Ready(Err(io::Error::from(io::ErrorKind::NotConnected))),
             };
+            if let Some(kind) = l.accept_errors.pop_front() {
+                w.count("fault_accept_error");
+                w.event("accept_error", self.addr.port() as u64, 0);
+                return Poll::Ready(Err(io::Error::from(kind)));
+            }
             match l.queue.pop_front() {
                 Some(c) => {
                     let peer = w.net.conns[c].addrs[0];
